@@ -1385,7 +1385,9 @@ def x4(prog):
     """`abbrev entry`, `attribute`, `code`, `label`, `?haschildren`, `offset`, `form`, `?AT_x` on abbreviations, interpreted from
     source against an abstract libdw: a table is a list of abbreviations with byte lengths (reached only through dwarf_getabbrev's
     offset/length protocol and its end sentinel), an abbreviation a code, tag, children flag, offset and attribute list (reached
-    through dwpp_abbrev_attrcnt / dwarf_getabbrevattr).  Tables of 0-3 abbreviations with 0-3 attributes realise every comparison."""
+    through dwpp_abbrev_attrcnt / dwarf_getabbrevattr; as in libdw, attribute offsets are the abbreviation's offset plus the distance
+    from its first attribute, and a reinterpretation of the abbreviation's storage reads its first private member, the offset).
+    Tables of 0-3 abbreviations with 0-3 attributes realise every comparison."""
     import itertools
     from cxxobj import CxxEvaluator, Obj, Struct, Sym, OutOfBounds, VarPtr
     from absint import Thrown
@@ -1413,6 +1415,12 @@ def x4(prog):
 
         def copy_value(self):
             return self
+
+        def reinterpret_as(self, t):
+            # libdw's private struct Dwarf_Abbrev starts with `Dwarf_Off offset`
+            if (t or "").replace("Dwarf_Off", "unsigned long").strip() not in ("unsigned long &", "const unsigned long &"):
+                raise Broken("an abbreviation is reinterpreted as %s: not the first member of libdw's Dwarf_Abbrev (unmodelled)" % t)
+            return self.off
 
     class Table:
         def __init__(self, abbrevs):
@@ -1459,7 +1467,6 @@ def x4(prog):
     hooks = {
         "dwarf_cu_die": cu_die, "dwarf_getabbrev": getabbrev, "dwarf_getabbrevattr": getattr_,
         "dwpp_abbrev_attrcnt": lambda ev, o, a: len(a[0].attrs),
-        "dwpp_abbrev_offset": lambda ev, o, a: a[0].off,
         "dwarf_getabbrevcode": lambda ev, o, a: a[0].code,
         "dwarf_getabbrevtag": lambda ev, o, a: a[0].tag,
         "dwarf_abbrevhaschildren": lambda ev, o, a: 1 if a[0].kids else 0,
@@ -1494,7 +1501,7 @@ def x4(prog):
                 abbrevs = []
                 off = 0
                 for k, na in enumerate(counts):
-                    ab = Abbrev(k + 1, 0x11 + k, k % 2 == 0, off, [(0x03 + i + k, 0x08 + i, off + 3 + 2 * i) for i in range(na)])
+                    ab = Abbrev(k + 1, 0x11 + k, k % 2 == 0, off, [(0x03 + i + k, 0x08 + i, off + 2 * i) for i in range(na)])
                     abbrevs.append(ab)
                     off += ab.length
                 table = Table(abbrevs)
